@@ -23,7 +23,7 @@ ENGINE = "nodesim"
 HAS_VIRTUAL_TIME = False
 
 TIERS = {
-    "quick": {"runs": 2400, "batch": 8, "wall_cap": 1800},
+    "quick": {"runs": 1600, "batch": 8, "wall_cap": 1800},
     "thorough": {"runs": 40000, "batch": 16},
 }
 
@@ -168,6 +168,11 @@ def recipient(desc, idents, net):
 
 
 # --------------------------------------------------------------------------- plan
+CONFUSABLE_KEYS = [
+    "0xc369524b55f2d2fedb5ab28e4b165f658cbd592cd6b47ed0932882bda2da03ab",
+    "0xf2292ce2083d372ea34994409a5acc16f8200a52bdec9b79d901b1aede746799",
+    "0xbdf3998b29fca1d5a12ef8c078020e0c8d0741866803717be59ee82f8f3d10a9",
+]
 EXACT = [5000000000, 100000000, 50000000, 2500000000, 1000000, 12500000]
 INEXACT = [29000000, 110000000, 7000000, 57000000, 1999999999, 10000001, 114000000, 230000000 + 1, 2099999997690000]
 
@@ -188,7 +193,7 @@ def _amount(rng, cls):
 
 def plan(seed, tier="quick", index=0):
     rng = sub_rng(seed, "plan")
-    stratum = rng.choice(["clean", "clean", "general", "general", "general", "general", "unsigned", "rpc-faults"])
+    stratum = rng.choice(["clean", "clean", "general", "general", "general", "general", "unsigned", "rpc-faults", "concurrent"])
     net = rng.choice(["mainnet", "testnet", "regtest"])
     n_id = rng.choice([2, 3, 3, 4])
     idents = []
@@ -199,8 +204,13 @@ def plan(seed, tier="quick", index=0):
             m = rng.randrange(1, n + 1)
         else:
             n, m = 1, 1
-        idents.append({"kind": kind, "keys": [hex(rng.randrange(1, EC.N)) for _ in range(n)], "m": m})
-    clean = stratum == "clean"
+        keys_ = [hex(rng.randrange(1, EC.N)) for _ in range(n)]
+        if kind == "multisig" and rng.random() < 0.3:
+            # raw scripts whose bytes look enough like a Bech32 string (single case, contain '1')
+            # to get past the first checks of the address classifiers
+            n, m, keys_ = 1, 1, [rng.choice(CONFUSABLE_KEYS)]
+        idents.append({"kind": kind, "keys": keys_, "m": m})
+    clean = stratum in ("clean", "concurrent")
     funding = []
     for i in range(n_id):
         k = 1 if clean else rng.choice([1, 1, 2, 3, 4, 6])
@@ -255,7 +265,22 @@ def plan(seed, tier="quick", index=0):
                 "entropy": rng.choice([[], [], [], ["ONE"], ["BOUND-1"], ["ZERO", "ONE"]]),
             }
         )
-    return {"property": PROPERTY, "seed": seed, "stratum": stratum, "net": net, "idents": idents, "funding": funding, "sends": sends}
+    sc = {"property": PROPERTY, "seed": seed, "stratum": stratum, "net": net, "idents": idents, "funding": funding, "sends": sends}
+    if stratum == "concurrent":
+        # 2-3 callers, each sending from a different identity at the same time
+        senders = rng.sample(range(n_id), min(n_id, rng.choice([2, 2, 3])))
+        base = sends[0]
+        sc["sends"] = []
+        for who in senders:
+            s2 = dict(base)
+            s2["who"] = who
+            s2["recipient"] = {"kind": rng.choice(["p2pkh", "p2wpkh", "p2sh", "p2wsh"]), "hash": hashlib.sha256(b"crcpt%d/%d" % (seed & 0xFFFFFFFF, who)).hexdigest()}
+            s2["change"] = {"kind": "p2pkh", "hash": hashlib.sha256(b"cchg%d/%d" % (seed & 0xFFFFFFFF, who)).hexdigest()}
+            s2["entropy"] = []
+            sc["sends"].append(s2)
+        horizon = 30000 * len(senders)
+        sc["strategy"] = rng.choice([["random", 0.0003, 0.0003], ["random", 0.002, 0.002], ["random", 0.01, 0.01], ["hold", 2, horizon, 60000], ["hold", 3, horizon, 30000], ["pct", 2, horizon], ["rr", rng.choice([100, 2000, 20000])]])
+    return sc
 
 
 # --------------------------------------------------------------------------- execute
@@ -269,8 +294,14 @@ class _Clock:
 
 
 def execute(scenario, tape=None, keep_events=False):
-    bits, txm, rpc, ecmath, keys, utils = mods()
+    mods()
+    from sim import callersim
+
+    # every run starts from a freshly imported package ("a new process")
+    bits, (txm, rpc, ecmath, keys, utils) = callersim.fresh_bits(("bits.tx", "bits.rpc", "bits.ecmath", "bits.keys", "bits.utils"))
     sc = scenario
+    concurrent = sc["stratum"] == "concurrent"
+    out_tape = None
     res = RunResult()
     res.stratum = sc["stratum"]
     log = EventLog(keep=keep_events)
@@ -298,6 +329,48 @@ def execute(scenario, tape=None, keep_events=False):
     clear_sends = 0
     try:
         with EntropySeam(ent, [ecmath, keys, utils, txm]):
+            pre = None
+            if concurrent:
+                pre = {}
+
+                def make(si, s):
+                    def body():
+                        idn = idents[s["who"]]
+                        r_arg, _, _ = recipient(s["recipient"], idents, net)
+                        c_arg, _, _ = recipient(s["change"], idents, net)
+                        try:
+                            pre[si] = (
+                                txm.send_tx(
+                                    idn["sender_addr"],
+                                    r_arg,
+                                    change_addr=c_arg,
+                                    sender_keys=list(idn["wifs"]),
+                                    sighash_flag=s["flag"],
+                                    send_fraction=s["fraction"],
+                                    miner_fee=s["fee"],
+                                    version=s["version"],
+                                    locktime=s["locktime"],
+                                    rpc_url="http://127.0.0.1:18443",
+                                    rpc_user=node.user,
+                                    rpc_password=node.password,
+                                ),
+                                None,
+                            )
+                        except Exception as e:  # noqa
+                            pre[si] = (None, f"{type(e).__name__}: {e}"[:200])
+
+                    return body
+
+                ent.max_draws_per_op = 10**9
+                sched, died = callersim.run_callers(
+                    sub_rng(sc["seed"], "sched"), log, [make(si, s) for si, s in enumerate(sc["sends"])], sc["strategy"], [txm.__file__, utils.__file__, ecmath.__file__, keys.__file__], tape=tape, step_cap=8000000
+                )
+                out_tape = sched.tape_out
+                faults.hit("preemptive-switch", sched.switches)
+                for ti, exc in enumerate(died):
+                    if exc is not None:
+                        pre[ti] = (None, f"caller thread died: {exc!r}")
+                nontrivial = sched.switches >= 2
             for si, s in enumerate(sc["sends"]):
                 idn = idents[s["who"]]
                 r_arg, r_spk, r_kind = recipient(s["recipient"], idents, net)
@@ -331,10 +404,12 @@ def execute(scenario, tape=None, keep_events=False):
                     log.add(si, "driver", "skip", "nothing to send")
                     probes.hit("send-skipped-insufficient-funds")
                     continue
-                node.order_mode = s["order"]
-                node.fault_plan = [s["rpc_fault"]] if s["rpc_fault"] else []
-                node.last_reported = None
-                ent.begin_op(s["entropy"])
+                if pre is None:
+                    node.order_mode = s["order"]
+                    node.fault_plan = [s["rpc_fault"]] if s["rpc_fault"] else []
+                    node.last_reported = None
+                    node.reports.pop(idn["spk"], None)
+                    ent.begin_op(s["entropy"])
                 kwargs = dict(
                     change_addr=c_arg,
                     send_fraction=s["fraction"],
@@ -349,7 +424,10 @@ def execute(scenario, tape=None, keep_events=False):
                     kwargs.update(sender_keys=list(idn["wifs"]), sighash_flag=s["flag"])
                 raw, exc = None, None
                 try:
-                    raw = txm.send_tx(idn["sender_addr"], r_arg, **kwargs)
+                    if pre is not None:
+                        raw, exc = pre.get(si, (None, "caller produced no result"))
+                    else:
+                        raw = txm.send_tx(idn["sender_addr"], r_arg, **kwargs)
                 except EntropyHang as e:
                     viols.append(Violation("nontermination", where, str(e), feats))
                     continue
@@ -383,7 +461,7 @@ def execute(scenario, tape=None, keep_events=False):
                     ok = False
                     viols.append(Violation(clause, key, detail, feats))
 
-                rep = set(node.last_reported["keys"]) if node.last_reported else set()
+                rep = set(node.reports.get(idn["spk"], ()))
                 ins = []
                 for ti in tx["vin"]:
                     k = (ti["txid"][::-1].hex(), ti["vout"])
@@ -451,8 +529,8 @@ def execute(scenario, tape=None, keep_events=False):
                 probes.hit("send-valid" + ("" if s["signed"] else "-unsigned"))
                 if not any(_where_ok(fd.get("where", {}), feats) for fd in open_findings()):
                     clear_sends += 1
-                if not s["signed"]:
-                    continue  # cannot be applied: nothing spends
+                if not s["signed"] or pre is not None:
+                    continue  # unsigned: nothing spends; concurrent callers: judged against the ledger they all scanned
                 # ---------------- apply to the ledger
                 nonwit = (
                     tx["version"].to_bytes(4, "little")
@@ -481,6 +559,7 @@ def execute(scenario, tape=None, keep_events=False):
             res.violations.append(v.to_json())
     res.nontrivial = nontrivial
     res.digest = log.digest()
+    res.tape = out_tape
     res.steps = len(sc["sends"])
     res.stats["sends"] = len(sc["sends"])
     res.stats["clear"] = clear_sends
@@ -517,6 +596,8 @@ def shrink_candidates(scenario, tape):
     import copy
 
     sends = scenario["sends"]
+    if scenario["stratum"] == "concurrent":
+        return
     for i in range(len(sends) - 1, -1, -1):
         if len(sends) > 1:
             sc = copy.deepcopy(scenario)
